@@ -678,7 +678,14 @@ func runL1x(c *lib.Ctx, ls *lib.Livesim, id string, in c11in, failIn any) (o l1o
 	if ptq != o.PT1 {
 		fail("patchlocation-publishTime", fmt.Sprintf("PatchLocation carries publishTime %q, the MPD has %q", ptq, o.PT1))
 	}
-	dOld, bOld, _ := getMPD(ls, in.URL, pt1.UnixMilli()+1)
+	// the old document exactly as the handler obtains it: the MPD request with the publishTime query
+	var dOld *etree.Document
+	var bOld []byte
+	if rr := ls.Get(in.URL + "?publishTime=" + url.QueryEscape(ptq)); rr.Status == 200 {
+		if d, err := parseDoc(rr.Body); err == nil {
+			dOld, bOld = d, rr.Body
+		}
+	}
 	same := canonical(d1.Root()) == canonical(d2.Root())
 	dPT := pt2.Sub(pt1)
 	ttl := time.Duration(o.TTL) * time.Second
@@ -743,11 +750,14 @@ func runL1x(c *lib.Ctx, ls *lib.Livesim, id string, in c11in, failIn any) (o l1o
 			if o.PT1 == o.PT2 {
 				// the two MPDs differ but carry the same publishTime: nothing the patch code can see
 				key = "425-but-changed:same-publishTime:other"
-				if timelineEndMoved(d1.Root(), d2.Root()) {
+				if d1.Root().SelectAttrValue("type", "") == "dynamic" && d2.Root().SelectAttrValue("type", "") == "static" {
+					// the stream stopped between t1 and t2: the MPD became static without a new publishTime
+					key = "425-but-changed:same-publishTime:became-static"
+				} else if timelineEndMoved(d1.Root(), d2.Root()) {
 					// segments were added at the new end of a timeline while publishTime stayed
 					key = "425-but-changed:same-publishTime:timeline-end"
 				}
-				if periodIDs(d1.Root()) != periodIDs(d2.Root()) {
+				if !strings.HasSuffix(key, ":became-static") && periodIDs(d1.Root()) != periodIDs(d2.Root()) {
 					// a Period was added or left the window while publishTime stayed
 					key = "425-but-changed:same-publishTime:period-list"
 				}
